@@ -585,7 +585,7 @@ main(int argc, char **argv) {
   vx_ev_int("ref_selftest_checks", checks);
   static struct rcfg rc_[200];
   int nrc = 0;
-  static const int wins[] = {32, 2, 1, 63, 3, 33, 64};
+  static const int wins[] = {32, 63, 2, 1, 3, 33, 64}; /* the first two at every depth */
   for (int d = 1; d <= (T ? 4 : 3); d++)
     for (int wi = 0; wi < 7; wi++)
       for (int b = 0; b < 2; b++)
@@ -640,7 +640,7 @@ main(int argc, char **argv) {
   vx_ev_int("sender_pivs_seen", (long long)vxp_counter(5));
   vx_ev_rule("recipient: all delivery histories of depth 1..3 (thorough 4) after one accepted message over {fresh(+gap in 1,2,3,[31],32,33,[63],64,65,"
              "[200]), late(-j) never delivered, replay of the last / previous / highest-PIV / first delivery, forgery claiming PIV 0, 1, highest, "
-             "highest+1, highest+70} x replay_window {32,2 at every depth; 1,63,3,33,64 at depth <= 2 (thorough: 1,63 also at depth 3; depth 4 with 32,2 and first PIV 0 only)} x Appendix B.1.2 {off,on} x first PIV {0,5} x (depth <= 2, windows 32 and 2) a forgery arriving before the first genuine message claiming the first PIV / first+70; messages manufactured by the "
+             "highest+1, highest+70} x replay_window {32,63 at every depth; 2,1,3,33,64 at depth <= 2 (thorough: 2,1 also at depth 3; depth 4 with 32,63 and first PIV 0 only)} x Appendix B.1.2 {off,on} x first PIV {0,5} x (depth <= 2, windows 32 and 2) a forgery arriving before the first genuine message claiming the first PIV / first+70; messages manufactured by the "
              "reference implementation; sender: ssn_freq {1,2,3,5} x start {0,4} x crash point of life 1 (after 0..7 sends, inside the 1st/2nd "
              "save callback) x crash point of life 2, each life resuming from the last value the callback stored; distinct = distinct (history, verdict vector)");
   vx_ev_assumption("accept = the application's request handler ran; the reference implementation (validated on the RFC 8613 Appendix C vectors and against libcoap in C14) produces the datagrams");
